@@ -12,6 +12,7 @@
 #include <atomic>
 #include <cassert>
 #include <cstdint>
+#include <cstring>
 #include <memory>
 
 namespace xenium {
@@ -79,7 +80,7 @@ struct seqlock {
   /**
    * @brief Constructs an object of type T via copy construction.
    */
-  explicit seqlock(const T& data) { new (&_data[0]) T(data); }
+  explicit seqlock(const T& data) { init_data(data); }
 
   /**
    * @brief Constructs an object of type T using args as the parameter list for the constructor of T.
@@ -89,7 +90,7 @@ struct seqlock {
    */
   template <class... Args>
   explicit seqlock(Args&&... args) {
-    new (&_data[0]) T(std::forward<Args>(args)...);
+    init_data(T(std::forward<Args>(args)...));
   }
 
   seqlock(const seqlock&) = delete;
@@ -131,7 +132,6 @@ struct seqlock {
   void update(Func func);
 
 private:
-  using storage_t = typename std::aligned_storage<sizeof(T), alignof(T)>::type;
   using sequence_t = uintptr_t;
   using copy_t = uintptr_t;
 
@@ -139,6 +139,21 @@ private:
 
   sequence_t acquire_lock();
   void release_lock(sequence_t seq);
+
+  // T is stored as a sequence of (properly aligned) atomic words, so that all sizeof(T) bytes - including
+  // a trailing partial word - can be copied with atomic operations, regardless of the alignment of T.
+  static constexpr std::size_t words_per_slot = (sizeof(T) + sizeof(copy_t) - 1) / sizeof(copy_t);
+  struct storage_t {
+    std::atomic<copy_t> words[words_per_slot];
+  };
+
+  void init_data(const T& src) {
+    copy_t buffer[words_per_slot] = {};
+    std::memcpy(buffer, &src, sizeof(T));
+    for (std::size_t i = 0; i < words_per_slot; ++i) {
+      _data[0].words[i].store(buffer[i], std::memory_order_relaxed);
+    }
+  }
 
   void read_data(T& dest, const storage_t& src) const;
   void store_data(const T& src, storage_t& dest);
@@ -228,12 +243,11 @@ void seqlock<T, Policies...>::release_lock(sequence_t seq) {
 
 template <class T, class... Policies>
 void seqlock<T, Policies...>::read_data(T& dest, const storage_t& src) const {
-  auto* pdest = reinterpret_cast<copy_t*>(&dest);
-  auto* pend = pdest + (sizeof(T) / sizeof(copy_t));
-  const auto* psrc = reinterpret_cast<const std::atomic<copy_t>*>(&src);
-  for (; pdest != pend; ++psrc, ++pdest) {
-    *pdest = psrc->load(std::memory_order_relaxed);
+  copy_t buffer[words_per_slot];
+  for (std::size_t i = 0; i < words_per_slot; ++i) {
+    buffer[i] = src.words[i].load(std::memory_order_relaxed);
   }
+  std::memcpy(&dest, buffer, sizeof(T));
   // (6) - this acquire-fence synchronizes-with the release-fence (7)
   XENIUM_THREAD_FENCE(std::memory_order_acquire);
 
@@ -250,11 +264,10 @@ void seqlock<T, Policies...>::store_data(const T& src, storage_t& dest) {
   // (7) - this release-fence synchronizes-with the acquire-fence (6)
   XENIUM_THREAD_FENCE(std::memory_order_release);
 
-  const auto* psrc = reinterpret_cast<const copy_t*>(&src);
-  const auto* pend = psrc + (sizeof(T) / sizeof(copy_t));
-  auto* pdest = reinterpret_cast<std::atomic<copy_t>*>(&dest);
-  for (; psrc != pend; ++psrc, ++pdest) {
-    pdest->store(*psrc, std::memory_order_relaxed);
+  copy_t buffer[words_per_slot] = {};
+  std::memcpy(buffer, &src, sizeof(T));
+  for (std::size_t i = 0; i < words_per_slot; ++i) {
+    dest.words[i].store(buffer[i], std::memory_order_relaxed);
   }
 }
 
